@@ -425,7 +425,7 @@ def build_payloads(ctx, replay):
         case = replay["case"]
         return {"replay": [case]}
     rng = ctx.rng
-    metrics = ["cosine", "euclidean", "manhattan"] + ([] if ctx.quick else ["chebyshev"])
+    metrics = ["cosine", "euclidean"] + ([] if ctx.quick else ["manhattan", "chebyshev"])
     reps = 2 if ctx.quick else 30
     payloads = {}
     sid = 0
@@ -444,7 +444,11 @@ def build_payloads(ctx, replay):
         items.append(sc_sinkhorn(rng, rng.choice(["cosine", "euclidean"]), sid, "wasserstein")); sid += 1
         items.append(sc_approx(rng, sid)); sid += 1
     payloads["sinkhorn+approx"] = items
-    payloads["pipeline"] = [gen_pipeline(rng) for _ in range(60 if ctx.quick else 800)]
+    pipeline = [gen_pipeline(rng) for _ in range(60 if ctx.quick else 800)]
+    if ctx.quick:
+        payloads["euclidean"] = payloads["euclidean"] + pipeline      # one process less to compile the kernels
+    else:
+        payloads["pipeline"] = pipeline
     return payloads
 
 
